@@ -59,7 +59,7 @@ NT_NAMES = ["ARG", "REF", "HOST", "USER", "FILE", "ITEM", "THING"]
 DECOR = ["plain", "plain", "plain", "extra_words", "noop_prefix", "and_prefix", "odd_spacing", "newline_inside", "trailing_semicolon",
          "multiline_arg", "heredoc_arg"]
 BEHAVIOURS = ["plain", "plain", "plain", "exit_nonzero", "stderr_noise", "empty", "empty_nonzero", "tab_descr", "dups", "spaces", "large", "dash",
-              "exit_and_stderr", "prefix_chain"]
+              "exit_and_stderr", "prefix_chain", "wordbreak_chars"]
 
 
 # ------------------------------------------------------------------ generation
@@ -128,6 +128,12 @@ class Gen:
         head = head[:-1] + str(self.nlit + 1) + head[-1] if r.chance(1, 2) else head
         self.nlit += 1
 
+        def sep():
+            # literals inside one word stay prefix-free among themselves (C01/C12's restriction: uniquely tokenisable);
+            # with head `-I` and separator `-` the emitted matcher stops at the separator because `-I` extends it
+            ok = [x for x in SW_SEPS if not head.startswith(x) and not x.startswith(head)]
+            return r.choice(ok or ["/"])
+
         def lits():
             n = r.range(2, 3)
             self.nlit += 1
@@ -135,13 +141,13 @@ class Gen:
         if shape == "LP":
             parts = [("lit", head), ("probe", None)]
         elif shape == "LPLP":
-            parts = [("lit", head), ("probe", None), ("lit", r.choice(SW_SEPS)), ("probe", None)]
+            parts = [("lit", head), ("probe", None), ("lit", sep()), ("probe", None)]
         elif shape == "PLP":
             parts = [("probe", None), ("lit", r.choice(SW_SEPS)), ("probe", None)]
         elif shape == "LA":
             parts = [("lit", head), lits()]            # literal-only word, e.g. --color=(always | never)
         else:
-            parts = [("lit", head), lits(), ("lit", r.choice(SW_SEPS)), ("probe", None)]
+            parts = [("lit", head), lits(), ("lit", sep()), ("probe", None)]
         same = r.chance(1, 3)
         first_k = None
         first_i = None
@@ -268,7 +274,12 @@ def assign_behaviours(rng, nprobes):
             cands = ["c%dx%d %s" % (k, j, rng.choice(["file name", "b", "two  sp"])) for j in range(n)]
             lines = [c + ("\tdescr" if rng.chance(1, 2) else "") for c in cands]
         elif kind == "large":
-            lines = cands + ["c%dy%05d-%s" % (k, j, "p" * 12) for j in range(3200)]
+            # > 64 KiB of output, with real candidates at the very beginning AND at the very end
+            lines = cands[:-1] + ["c%dy%05d-%s" % (k, j, "p" * 12) for j in range(3200)] + cands[-1:]
+        elif kind == "wordbreak_chars":
+            # candidates containing characters of COMP_WORDBREAKS: only the TYPED prefix may be stripped, never the candidates
+            cands = ["c%dx%d%s" % (k, j, rng.choice(["=v", ":w", "=a=b", ":"])) for j in range(n)]
+            lines = list(cands)
         elif kind == "prefix_chain":
             # one candidate is a proper prefix of another (dev / devel); complete words use the maximal ones only
             cands = ["c%dx%d" % (k, j) for j in range(n)] + ["c%dx0el" % k]
@@ -371,10 +382,21 @@ def gen_lines(model, beh, rng, n):
             if not state:
                 break
         kind = "walk"
-        if words and rng.chance(1, 5):
+        roll = rng.below(20)
+        if words and roll < 4:
             i = rng.below(len(words))
             words[i] = rng.choice(FOREIGN)
             kind = "foreign@%d/%d" % (i, len(words))
+        elif len(words) >= 2 and roll < 7:
+            # a word that merely EXTENDS, or is a proper prefix of, what was accepted there (never the last complete word, which is
+            # the known `break 3` shape): acceptance must be by equality with a candidate, not by prefix
+            i = rng.below(len(words) - 1)
+            if roll < 6:
+                words[i] = words[i] + rng.choice(["x", "zz", "0"])
+                kind = "extended@%d/%d" % (i, len(words))
+            elif len(words[i]) > 1:
+                words[i] = words[i][:-1]
+                kind = "truncated@%d/%d" % (i, len(words))
         # typed prefix
         exp = model.expected(state) if state is not None or not words else []
         prefix = ""
